@@ -1,4 +1,433 @@
 import BarterModel.Model.Drawdown
+/-! Helper lemmas for C18 (drawdowns). Core Lean only. -/
 namespace BarterModel.Drawdown
+
+/-! ### `largest` -/
+
+theorem largest_nil : largest [] = 0 := rfl
+
+theorem largest_concat (xs : List Rat) (x : Rat) : largest (xs ++ [x]) = max (largest xs) x := by
+  simp [largest, List.foldl_append]
+
+theorem foldl_max_ge (xs : List Rat) (a : Rat) : a ≤ xs.foldl max a := by
+  induction xs generalizing a with
+  | nil => simp
+  | cons x xs ih =>
+    simp only [List.foldl_cons]
+    have := ih (max a x)
+    grind
+
+theorem largest_nonneg (xs : List Rat) : 0 ≤ largest xs := foldl_max_ge xs 0
+
+theorem foldl_max_mem_ge (xs : List Rat) (a x : Rat) (h : x ∈ xs) : x ≤ xs.foldl max a := by
+  induction xs generalizing a with
+  | nil => cases h
+  | cons y ys ih =>
+    simp only [List.foldl_cons]
+    rcases List.mem_cons.mp h with rfl | h
+    · have := foldl_max_ge ys (max a x); grind
+    · exact ih _ h
+
+theorem le_largest {xs : List Rat} {x : Rat} (h : x ∈ xs) : x ≤ largest xs :=
+  foldl_max_mem_ge xs 0 x h
+
+theorem foldl_max_mem (xs : List Rat) (a : Rat) : xs.foldl max a = a ∨ xs.foldl max a ∈ xs := by
+  induction xs generalizing a with
+  | nil => simp
+  | cons y ys ih =>
+    simp only [List.foldl_cons]
+    rcases ih (max a y) with h | h
+    · rw [h]; simp only [List.mem_cons]; grind
+    · right; exact List.mem_cons_of_mem _ h
+
+theorem largest_eq_zero_or_mem (xs : List Rat) : largest xs = 0 ∨ largest xs ∈ xs :=
+  foldl_max_mem xs 0
+
+/-! ### one step of `DrawdownGenerator::update` on the canonical states -/
+
+/-- generator state after the running maximum `p` followed by the non-exceeding points `seg` -/
+def atPeak (p : Pt) (seg : List Pt) : Gen := ⟨some p.v, depthOf p seg, some p.t, lastT p seg⟩
+
+theorem lastT_concat (p : Pt) (seg : List Pt) (q : Pt) : lastT p (seg ++ [q]) = q.t := by
+  simp [lastT]
+
+theorem default_update (p : Pt) : Gen.default.update p = (atPeak p [], none) := by
+  simp [Gen.default, Gen.update, atPeak, depthOf, lastT, largest]
+
+theorem init_eq (p : Pt) : Gen.init p = atPeak p [] := by
+  simp [Gen.init, atPeak, depthOf, lastT, largest]
+
+theorem atPeak_generate (p : Pt) (seg : List Pt) :
+    (atPeak p seg).generate = ddOf p seg (lastT p seg) := rfl
+
+theorem decline_zero_peak (v : Rat) : decline 0 v = 0 := by
+  simp [decline, Rat.div_def]
+
+theorem checkedDiv_decline (peak v : Rat) :
+    checkedDiv (peak - v) peak = if peak = 0 then none else some (decline peak v) := rfl
+
+theorem atPeak_update_le (p : Pt) (seg : List Pt) (q : Pt) (h : q.v ≤ p.v) :
+    (atPeak p seg).update q = (atPeak p (seg ++ [q]), none) := by
+  have hn : ¬ (p.v < q.v) := Rat.not_lt.mpr h
+  have h0 : 0 ≤ depthOf p seg := largest_nonneg _
+  have hc : depthOf p (seg ++ [q]) = max (depthOf p seg) (decline p.v q.v) := by
+    simp [depthOf, largest_concat]
+  simp only [atPeak, Gen.update, gt_iff_lt, hn, if_false, lastT_concat, checkedDiv_decline, hc]
+  have hd0 : p.v = 0 → decline p.v q.v = 0 := fun hp => by rw [hp]; exact decline_zero_peak _
+  generalize decline p.v q.v = dc at *
+  generalize depthOf p seg = L at *
+  by_cases hp : p.v = 0
+  · have hd : dc = 0 := hd0 hp
+    rw [if_pos hp]
+    have : max L dc = L := by grind
+    simp only [this]
+  · rw [if_neg hp]
+    simp only
+    split
+    · have : max L dc = dc := by grind
+      simp only [this]
+    · have : max L dc = L := by grind
+      simp only [this]
+
+theorem atPeak_update_gt (p : Pt) (seg : List Pt) (q : Pt) (h : p.v < q.v) :
+    (atPeak p seg).update q = (atPeak q [], ddOf p seg q.t) := by
+  simp only [atPeak, Gen.update, gt_iff_lt, h, if_true]
+  rfl
+
+
+/-! ### the generator over a whole curve refines `decompose` -/
+
+theorem decompose_cons (p : Pt) (rest : List Pt) :
+    decompose (p :: rest) =
+       match (rest.dropWhile (fun q => q.v ≤ p.v)).head? with
+       | none => ([], ddOf p (rest.takeWhile (fun q => q.v ≤ p.v)) (lastT p (rest.takeWhile (fun q => q.v ≤ p.v))))
+       | some q =>
+         ((ddOf p (rest.takeWhile (fun q => q.v ≤ p.v)) q.t).toList ++ (decompose (rest.dropWhile (fun q => q.v ≤ p.v))).1,
+          (decompose (rest.dropWhile (fun q => q.v ≤ p.v))).2) := by
+  rw [decompose]
+  generalize (List.dropWhile (fun q => decide (q.v ≤ p.v)) rest).head? = o
+  cases o <;> rfl
+
+theorem takeWhile_all {α} (f : α → Bool) (l : List α) (h : ∀ x ∈ l, f x = true) : l.takeWhile f = l := by
+  induction l with
+  | nil => rfl
+  | cons a l ih =>
+    rw [List.takeWhile_cons_of_pos (h a (by simp)), ih (fun x hx => h x (by simp [hx]))]
+
+theorem dropWhile_all {α} (f : α → Bool) (l : List α) (h : ∀ x ∈ l, f x = true) : l.dropWhile f = [] := by
+  induction l with
+  | nil => rfl
+  | cons a l ih =>
+    rw [List.dropWhile_cons_of_pos (h a (by simp)), ih (fun x hx => h x (by simp [hx]))]
+
+theorem decompose_all_le (p : Pt) (seg : List Pt) (h : ∀ x ∈ seg, x.v ≤ p.v) :
+    decompose (p :: seg) = ([], ddOf p seg (lastT p seg)) := by
+  have h1 : seg.takeWhile (fun q => decide (q.v ≤ p.v)) = seg :=
+    takeWhile_all _ _ (by simpa using h)
+  have h2 : seg.dropWhile (fun q => decide (q.v ≤ p.v)) = [] :=
+    dropWhile_all _ _ (by simpa using h)
+  rw [decompose_cons]
+  simp only [h1, h2, List.head?_nil]
+
+theorem decompose_exceed (p : Pt) (seg : List Pt) (q : Pt) (rest : List Pt)
+    (h : ∀ x ∈ seg, x.v ≤ p.v) (hq : p.v < q.v) :
+    decompose (p :: (seg ++ q :: rest)) =
+      ((ddOf p seg q.t).toList ++ (decompose (q :: rest)).1, (decompose (q :: rest)).2) := by
+  have hq' : ¬ (q.v ≤ p.v) := Rat.not_le.mpr hq
+  have h1 : (seg ++ q :: rest).takeWhile (fun q => decide (q.v ≤ p.v)) = seg := by
+    rw [List.takeWhile_append_of_pos (by simpa using h), List.takeWhile_cons_of_neg (by simpa using hq')]
+    simp
+  have h2 : (seg ++ q :: rest).dropWhile (fun q => decide (q.v ≤ p.v)) = q :: rest := by
+    rw [List.dropWhile_append_of_pos (by simpa using h), List.dropWhile_cons_of_neg (by simpa using hq')]
+  rw [decompose_cons]
+  simp only [h1, h2, List.head?_cons]
+
+theorem run_atPeak (rest : List Pt) : ∀ (p : Pt) (seg : List Pt), (∀ x ∈ seg, x.v ≤ p.v) →
+    (Gen.run (atPeak p seg) rest).2 = (decompose (p :: (seg ++ rest))).1 ∧
+    (Gen.run (atPeak p seg) rest).1.generate = (decompose (p :: (seg ++ rest))).2 := by
+  induction rest with
+  | nil =>
+    intro p seg h
+    simp [Gen.run, decompose_all_le p seg h, atPeak_generate]
+  | cons q rest ih =>
+    intro p seg h
+    by_cases hq : q.v ≤ p.v
+    · have := ih p (seg ++ [q]) (by
+        intro x hx; rcases List.mem_append.mp hx with hx | hx
+        · exact h x hx
+        · simp at hx; rw [hx]; exact hq)
+      simp only [Gen.run, atPeak_update_le p seg q hq, Option.toList_none, List.nil_append]
+      simpa [List.append_assoc] using this
+    · have hq' : p.v < q.v := Rat.not_le.mp hq
+      have := ih q [] (by simp)
+      simp only [Gen.run, atPeak_update_gt p seg q hq', decompose_exceed p seg q rest h hq']
+      simp only [List.nil_append] at this
+      simp [this]
+
+/-! ### max -/
+
+/-- `r` is the first deepest element of `ds` -/
+def FirstMax (ds : List Drawdown) : Option Drawdown → Prop
+  | none => ds = []
+  | some m => ∃ as bs, ds = as ++ m :: bs ∧ (∀ a ∈ as, a.value.abs < m.value.abs) ∧
+      (∀ b ∈ bs, b.value.abs ≤ m.value.abs)
+
+theorem firstMax_step (pre : List Drawdown) (s : MaxGen) (x : Drawdown) (h : FirstMax pre s.max) :
+    FirstMax (pre ++ [x]) (s.update x).max := by
+  unfold MaxGen.update
+  cases hs : s.max with
+  | none =>
+    simp only [hs, FirstMax] at h ⊢
+    exact ⟨[], [], by simp [h], by simp, by simp⟩
+  | some m =>
+    simp only [hs, FirstMax] at h ⊢
+    obtain ⟨as, bs, rfl, h1, h2⟩ := h
+    by_cases hx : x.value.abs > m.value.abs
+    · simp only [hx, if_true]
+      refine ⟨as ++ m :: bs, [], by simp, ?_, by simp⟩
+      intro a ha
+      rcases List.mem_append.mp ha with ha | ha
+      · have := h1 a ha; grind
+      · rcases List.mem_cons.mp ha with rfl | ha
+        · exact hx
+        · have := h2 a ha; grind
+    · simp only [hx, if_false]
+      refine ⟨as, bs ++ [x], by simp, h1, ?_⟩
+      intro b hb
+      rcases List.mem_append.mp hb with hb | hb
+      · exact h2 b hb
+      · simp at hb; rw [hb]; exact Rat.not_lt.mp hx
+
+theorem firstMax_foldl (ds : List Drawdown) : ∀ (pre : List Drawdown) (s : MaxGen), FirstMax pre s.max →
+    FirstMax (pre ++ ds) (ds.foldl MaxGen.update s).max := by
+  induction ds with
+  | nil => intro pre s h; simpa using h
+  | cons x ds ih =>
+    intro pre s h
+    have := ih (pre ++ [x]) (s.update x) (firstMax_step pre s x h)
+    simpa [List.append_assoc] using this
+
+theorem specMax_of_firstMax (ds : List Drawdown) (r : Option Drawdown) (h : FirstMax ds r) :
+    specMax ds = r := by
+  cases r with
+  | none => simp only [FirstMax] at h; subst h; rfl
+  | some m =>
+    obtain ⟨as, bs, rfl, h1, h2⟩ := h
+    unfold specMax
+    rw [List.find?_eq_some_iff_append]
+    refine ⟨?_, as, bs, rfl, ?_⟩
+    · simp only [List.all_eq_true, decide_eq_true_eq]
+      intro d hd
+      rcases List.mem_append.mp hd with hd | hd
+      · exact Rat.le_of_lt (h1 d hd)
+      · rcases List.mem_cons.mp hd with rfl | hd
+        · exact Rat.le_refl
+        · exact h2 d hd
+    · intro a ha
+      simp only [Bool.not_eq_eq_eq_not, Bool.not_true, List.all_eq_false, decide_eq_true_eq]
+      exact ⟨m, by simp, Rat.not_le.mpr (h1 a ha)⟩
+
+theorem maxFold_eq_specMax (ds : List Drawdown) :
+    (ds.foldl MaxGen.update MaxGen.default).generate = specMax ds := by
+  have := firstMax_foldl ds [] MaxGen.default rfl
+  simp only [List.nil_append] at this
+  exact (specMax_of_firstMax ds _ this).symm
+
+/-! ### mean -/
+
+theorem meanFold_some (ds : List Drawdown) : ∀ (k : Nat) (m : Rat) (ms : Int), 0 < k →
+    ds.foldl MeanGen.update ⟨k, some ⟨m, ms⟩⟩ =
+      ⟨k + ds.length,
+       some ⟨((k : Rat) * m + (ds.map (·.value)).sum) / ((k + ds.length : Nat) : Rat),
+             (ds.foldl stepMs (ms, k)).1⟩⟩ := by
+  induction ds with
+  | nil =>
+    intro k m ms hk
+    have : (k : Rat) ≠ 0 := by
+      have := (Rat.natCast_pos (a := k)).mpr hk; grind
+    simp only [List.foldl_nil, List.map_nil, List.sum_nil, List.length_nil, Nat.add_zero]
+    congr 3
+    grind
+  | cons x ds ih =>
+    intro k m ms hk
+    simp only [List.foldl_cons, MeanGen.update, List.map_cons, List.sum_cons, List.length_cons]
+    rw [ih (k + 1) _ _ (by omega)]
+    have hk1 : ((k + 1 : Nat) : Rat) ≠ 0 := by
+      have := (Rat.natCast_pos (a := k + 1)).mpr (by omega); grind
+    have hc : ((k + 1 : Nat) : Rat) = (k : Rat) + 1 := by simp [Rat.natCast_add]
+    have e1 : k + 1 + ds.length = k + (ds.length + 1) := by omega
+    simp only [stepMs, welfordMean, welfordMeanInt, e1]
+    congr 3
+    rw [hc] at hk1 ⊢
+    grind
+
+theorem stepMs_count (ds : List Drawdown) (acc : Int × Nat) :
+    (ds.foldl stepMs acc).2 = acc.2 + ds.length := by
+  induction ds generalizing acc with
+  | nil => simp
+  | cons x ds ih => simp only [List.foldl_cons, ih, stepMs, List.length_cons]; omega
+
+theorem tdiv_err (x : Int) (k : Nat) :
+    ((k : Int) + 1) * Int.tdiv x ((k + 1 : Nat) : Int) = x - Int.tmod x ((k + 1 : Nat) : Int) ∧
+    -(k : Int) ≤ Int.tmod x ((k + 1 : Nat) : Int) ∧ Int.tmod x ((k + 1 : Nat) : Int) ≤ k := by
+  have h1 := Int.mul_tdiv_add_tmod x ((k + 1 : Nat) : Int)
+  have h2 := Int.tmod_lt_of_pos x (b := ((k + 1 : Nat) : Int)) (by omega)
+  have h3 := Int.lt_tmod_of_pos x (b := ((k + 1 : Nat) : Int)) (by omega)
+  refine ⟨?_, by omega, by omega⟩
+  have : ((k + 1 : Nat) : Int) = (k : Int) + 1 := by omega
+  rw [this] at h1 ⊢
+  omega
+
+/-- `2·|k·mean − S| ≤ k·(k−1)` is preserved by the integer incremental average. -/
+theorem stepMs_bound (ds : List Drawdown) : ∀ (ms : Int) (k : Nat) (S : Int), 0 < k →
+    0 ≤ 2 * (k * ms - S) + (k : Int) * (k - 1) → 2 * (k * ms - S) ≤ (k : Int) * (k - 1) →
+    let r := ds.foldl stepMs (ms, k)
+    0 ≤ 2 * (r.2 * r.1 - (S + (ds.map (·.duration)).sum)) + (r.2 : Int) * (r.2 - 1) ∧
+    2 * (r.2 * r.1 - (S + (ds.map (·.duration)).sum)) ≤ (r.2 : Int) * (r.2 - 1) := by
+  induction ds with
+  | nil => intro ms k S hk h1 h2; simp; omega
+  | cons x ds ih =>
+    intro ms k S hk h1 h2
+    simp only [List.foldl_cons, List.map_cons, List.sum_cons]
+    obtain ⟨e1, e2, e3⟩ := tdiv_err (x.duration - ms) k
+    have := ih (ms + Int.tdiv (x.duration - ms) ((k + 1 : Nat) : Int)) (k + 1) (S + x.duration) (by omega)
+      (by
+        have : ((k + 1 : Nat) : Int) = (k : Int) + 1 := by omega
+        rw [this] at e1 e2 e3 ⊢
+        grind)
+      (by
+        have : ((k + 1 : Nat) : Int) = (k : Int) + 1 := by omega
+        rw [this] at e1 e2 e3 ⊢
+        grind)
+    simpa [stepMs, Int.add_assoc] using this
+
+/-! ### assembling: sheets -/
+
+theorem meanFold_eq_specMean (ds : List Drawdown) :
+    ds.foldl MeanGen.update MeanGen.default = ⟨ds.length, specMean ds⟩ := by
+  cases ds with
+  | nil => rfl
+  | cons d ds =>
+    have h0 : MeanGen.default.update d = ⟨1, some ⟨d.value, d.duration⟩⟩ := rfl
+    rw [List.foldl_cons, h0, meanFold_some ds 1 d.value d.duration (by omega)]
+    have e : 1 + ds.length = ds.length + 1 := by omega
+    simp only [specMean, avgDurationMs, avgDepth, List.map_cons, List.sum_cons, List.length_cons, e]
+    congr 3
+    have : ((1 : Nat) : Rat) = 1 := rfl
+    rw [this]; grind
+
+theorem sheet_run (pts : List Pt) : ∀ s : Sheet, Sheet.run s pts =
+    (⟨(Gen.run s.gen pts).1, (Gen.run s.gen pts).2.foldl MeanGen.update s.mean,
+      (Gen.run s.gen pts).2.foldl MaxGen.update s.max⟩, (Gen.run s.gen pts).2) := by
+  induction pts with
+  | nil => intro s; rfl
+  | cons p ps ih =>
+    intro s
+    simp only [Sheet.run, Sheet.update, Gen.run]
+    cases h : (s.gen.update p).2 with
+    | none => simp [ih]
+    | some d => simp [ih]
+
+theorem sheet_run_append (a b : List Pt) (s : Sheet) :
+    Sheet.run s (a ++ b) =
+      ((Sheet.run (Sheet.run s a).1 b).1, (Sheet.run s a).2 ++ (Sheet.run (Sheet.run s a).1 b).2) := by
+  induction a generalizing s with
+  | nil => simp [Sheet.run]
+  | cons p ps ih =>
+    simp only [List.cons_append, Sheet.run, ih, List.append_assoc]
+
+theorem run_default (p : Pt) (rest : List Pt) :
+    (Gen.run Gen.default (p :: rest)).2 = (decompose (p :: rest)).1 ∧
+    (Gen.run Gen.default (p :: rest)).1.generate = (decompose (p :: rest)).2 := by
+  have := run_atPeak rest p [] (by simp)
+  simpa [Gen.run, default_update] using this
+
+theorem run_init (p : Pt) (rest : List Pt) :
+    (Gen.run (Gen.init p) rest).2 = (decompose (p :: rest)).1 ∧
+    (Gen.run (Gen.init p) rest).1.generate = (decompose (p :: rest)).2 := by
+  have := run_atPeak rest p [] (by simp)
+  simpa [init_eq] using this
+
+theorem ddOf_pos (p : Pt) (seg : List Pt) (t : Int) : ∀ d ∈ (ddOf p seg t).toList, 0 < d.value := by
+  intro d hd
+  unfold ddOf at hd
+  have := largest_nonneg (seg.map (fun q => decline p.v q.v))
+  split at hd
+  · simp at hd; subst hd; simp only; unfold depthOf at *; grind
+  · simp at hd
+
+theorem run_atPeak_pos (rest : List Pt) : ∀ (p : Pt) (seg : List Pt),
+    (∀ d ∈ (Gen.run (atPeak p seg) rest).2, 0 < d.value) ∧
+    (∀ d ∈ (Gen.run (atPeak p seg) rest).1.generate.toList, 0 < d.value) := by
+  induction rest with
+  | nil => intro p seg; simp only [Gen.run, atPeak_generate]; exact ⟨by simp, ddOf_pos _ _ _⟩
+  | cons q rest ih =>
+    intro p seg
+    by_cases hq : q.v ≤ p.v
+    · simp only [Gen.run, atPeak_update_le p seg q hq, Option.toList_none, List.nil_append]
+      exact ih p (seg ++ [q])
+    · have hq' : p.v < q.v := Rat.not_le.mp hq
+      simp only [Gen.run, atPeak_update_gt p seg q hq']
+      refine ⟨?_, (ih q []).2⟩
+      intro d hd
+      rcases List.mem_append.mp hd with hd | hd
+      · exact ddOf_pos _ _ _ d hd
+      · exact (ih q []).1 d hd
+
+theorem pnlCurve_run (ps : List (Int × Rat)) : ∀ s : InstrSheet,
+    InstrSheet.run s ps =
+      (⟨(pnlCurve s.pnlRaw ps).foldl (fun _ p => p.v) s.pnlRaw, (Sheet.run s.sheet (pnlCurve s.pnlRaw ps)).1⟩,
+       (Sheet.run s.sheet (pnlCurve s.pnlRaw ps)).2) := by
+  induction ps with
+  | nil => intro s; rfl
+  | cons x ps ih =>
+    intro s
+    obtain ⟨t, d⟩ := x
+    simp only [InstrSheet.run, InstrSheet.update, pnlCurve, Sheet.run, List.foldl_cons, ih]
+
+/-! ### what `depthOf` means under a positive running maximum -/
+
+theorem decline_nonneg {p v : Rat} (hp : 0 < p) (hv : v ≤ p) : 0 ≤ decline p v := by
+  unfold decline
+  rw [Rat.div_def]
+  exact Rat.mul_nonneg (by grind) (Rat.le_of_lt (Rat.inv_pos.mpr hp))
+
+theorem decline_pos_iff {p v : Rat} (hp : 0 < p) : 0 < decline p v ↔ v < p := by
+  unfold decline
+  rw [Rat.lt_div_iff hp]
+  grind
+
+theorem decline_le_iff {p v w : Rat} (hp : 0 < p) : decline p v ≤ decline p w ↔ w ≤ v := by
+  unfold decline
+  constructor
+  · intro h
+    apply Rat.not_lt.mp
+    intro hlt
+    have : (p - w) / p < (p - v) / p := by
+      rw [Rat.div_lt_iff hp, Rat.div_def, Rat.mul_assoc, Rat.inv_mul_cancel _ (by grind)]
+      grind
+    grind
+  · intro h
+    apply Rat.not_lt.mp
+    intro hlt
+    rw [Rat.div_lt_iff hp, Rat.div_def, Rat.mul_assoc, Rat.inv_mul_cancel _ (by grind)] at hlt
+    grind
+
+theorem depthOf_ne_zero_iff (p : Pt) (seg : List Pt) (hp : 0 < p.v) (h : ∀ q ∈ seg, q.v ≤ p.v) :
+    depthOf p seg ≠ 0 ↔ ∃ q ∈ seg, q.v < p.v := by
+  constructor
+  · intro hne
+    rcases largest_eq_zero_or_mem (seg.map (fun q => decline p.v q.v)) with h0 | hm
+    · exact absurd h0 hne
+    · obtain ⟨q, hq, e⟩ := List.mem_map.mp hm
+      refine ⟨q, hq, (decline_pos_iff hp).mp ?_⟩
+      have h1 := decline_nonneg hp (h q hq)
+      have : decline p.v q.v ≠ 0 := by rw [e]; exact hne
+      grind
+  · rintro ⟨q, hq, hlt⟩
+    have h1 := (decline_pos_iff hp).mpr hlt
+    have h2 : decline p.v q.v ≤ depthOf p seg :=
+      le_largest (List.mem_map.mpr ⟨q, hq, rfl⟩)
+    grind
 
 end BarterModel.Drawdown
